@@ -229,6 +229,8 @@ pub(crate) enum Ev {
     D2 { conn: usize, present: bool, alias: bool },
     /// harness marker: from here on the connection is being ended
     Ending { conn: usize },
+    /// harness marker (Outbound phase): from here on the peer reads again (the write credit is unlimited)
+    PeerReadsAgain { conn: usize },
     /// the serving future finished (ok / err / panicked / aborted)
     Served { conn: usize, outcome: &'static str },
     /// the connection's runtime (and its blocking pool) is gone
@@ -273,6 +275,7 @@ impl Ev {
             | Ev::D1 { conn, .. }
             | Ev::D2 { conn, .. }
             | Ev::Ending { conn }
+            | Ev::PeerReadsAgain { conn }
             | Ev::Served { conn, .. }
             | Ev::Gone { conn }
             | Ev::After { conn, .. }
@@ -334,6 +337,9 @@ pub(crate) struct World {
     /// the router carries a middleware that REWRITES the query of the requests it forwards ("/v1/x" -> "/x"),
     /// and the parked handlers are reached through it: they must observe cancellation all the same
     pub rewrite: bool,
+    /// the server's per-connection outbound queue holds ONE message (`with_outbound_capacity(1)`): with a peer
+    /// that does not read, the serving task itself ends up parked handing a response to the full queue
+    pub outbound1: bool,
 }
 
 impl World {
@@ -349,7 +355,14 @@ impl World {
             keep_handles: false,
             handles: Mutex::new(BTreeMap::new()),
             rewrite: false,
+            outbound1: false,
         })
+    }
+    /// The same, with an outbound queue of one message.
+    pub(crate) fn new_outbound1(plans: Vec<Plan>) -> Arc<World> {
+        let mut w = World::new(plans);
+        Arc::get_mut(&mut w).expect("fresh").outbound1 = true;
+        w
     }
     /// The same, with the query-rewriting middleware in front of the handlers.
     pub(crate) fn new_rewriting(plans: Vec<Plan>) -> Arc<World> {
@@ -567,7 +580,9 @@ fn add_routes(router: Router, w: &Arc<World>, pre: &str) -> Router {
 }
 
 fn build_server_with(w: &Arc<World>, router: Router) -> WebSocketServer {
-    WebSocketServer::new(router)
+    let base = WebSocketServer::new(router);
+    let base = if w.outbound1 { base.with_outbound_capacity(1) } else { base };
+    base
         .on_error({
             let w = w.clone();
             move |e: &ConnectionError| {
@@ -713,6 +728,7 @@ pub(crate) struct Counters {
     pub disconnect_pairs_checked: u64,
     pub handshake_failures: u64,
     pub offpanic_survived: u64,
+    pub hooks_ran_while_peer_blocked: u64,
     pub drain_returned_with_parked_handler: u64,
     pub drain_aborted_stragglers: u64,
     pub undelivered_at_abort: u64,
@@ -810,6 +826,7 @@ impl Counters {
         self.disconnect_pairs_checked += o.disconnect_pairs_checked;
         self.handshake_failures += o.handshake_failures;
         self.offpanic_survived += o.offpanic_survived;
+        self.hooks_ran_while_peer_blocked += o.hooks_ran_while_peer_blocked;
         self.drain_returned_with_parked_handler += o.drain_returned_with_parked_handler;
         self.drain_aborted_stragglers += o.drain_aborted_stragglers;
         self.undelivered_at_abort += o.undelivered_at_abort;
@@ -886,6 +903,7 @@ fn short(e: &Ev) -> &'static str {
         Ev::D1 { .. } => "D1",
         Ev::D2 { .. } => "D2",
         Ev::Ending { .. } => "|end|",
+        Ev::PeerReadsAgain { .. } => "|peer-reads|",
         Ev::Served { outcome, .. } => outcome,
         Ev::Gone { .. } => "gone",
         Ev::After { .. } => "after",
@@ -981,6 +999,22 @@ pub(crate) fn evaluate(w: &World, facts: &[ConnFacts], shared_end: bool, out: &m
 
         // ---- registry: present (with alias) while connected
         let first_d = d1.iter().chain(d2.iter()).min().copied().unwrap_or(usize::MAX);
+        // ---- an exit cause the embedder controls ends the connection by itself, also while the peer does not
+        //      read and the outbound queue is full: the disconnect hooks have run by the time the harness lets
+        //      the peer read again (several seconds later)
+        if f.phase == Phase::Outbound && matches!(f.cause, Cause::Cancel | Cause::Drain | Cause::Abort) {
+            if let Some(reads) = evs.iter().find(|(_, e)| matches!(e, Ev::PeerReadsAgain { .. })).map(|(i, _)| *i) {
+                let last_d = d1.iter().chain(d2.iter()).max().copied().unwrap_or(usize::MAX);
+                if last_d > reads {
+                    fail(
+                        format!("C15:exit-waited-for-the-peer-to-read:{:?}", f.cause),
+                        format!("{:?} with the peer not reading and responses queued: the disconnect hooks had not (all) run {} s later, when the harness let the peer read again", f.cause, SHORT_WATCHDOG.as_secs()),
+                    );
+                } else {
+                    out.counters.hooks_ran_while_peer_blocked += 1;
+                }
+            }
+        }
         let insert_ran = evs.iter().any(|(_, e)| matches!(e, Ev::C2 { .. })) || f.cause != Cause::ConnPanic1;
         let alias_set = evs.iter().any(|(_, e)| matches!(e, Ev::H { attached: true, .. }));
         for (i, e) in &evs {
@@ -1039,7 +1073,7 @@ pub(crate) fn evaluate(w: &World, facts: &[ConnFacts], shared_end: bool, out: &m
                     if !*present {
                         bump(&mut out.counters.notes, "second connect hook did not see the peer in the registry");
                     }
-                    if !*notify_ok {
+                    if !*notify_ok && !w.outbound1 {
                         out.stuck.push(format!("send_notify from the connect hook failed [{tag}]"));
                     }
                 }
@@ -1132,7 +1166,9 @@ pub(crate) fn evaluate(w: &World, facts: &[ConnFacts], shared_end: bool, out: &m
                     hello += 1;
                 } else if fr.h.notify == 0 {
                     decided = true;
-                    if hello < 2 {
+                    // (with an outbound queue of one message the hook's second notify is refused by the full
+                    // queue: there is no second notify to overtake)
+                    if hello < 2 && !w.outbound1 {
                         fail(
                             "C15:response-overtook-connect-notify".into(),
                             format!("a response (id {}) reached the wire after only {hello} of the 2 notifies queued by the connect hook", fr.h.id),
@@ -1236,17 +1272,22 @@ pub(crate) fn variant_from_json(v: &Value) -> Result<Variant, String> {
 }
 
 fn mem_sc(variant: Variant, conns: Vec<Cell>, shared_token: bool, reverse_end: bool) -> Scenario {
-    Scenario::Mem(mem::MemScenario { prefix: None, variant, conns, shared_token, reverse_end, rewrite: false })
+    Scenario::Mem(mem::MemScenario { prefix: None, variant, conns, shared_token, reverse_end, rewrite: false, outbound1: false })
 }
 
 /// the same with the query-rewriting middleware in front of the parked handlers
 fn mem_rewriting(variant: Variant, conns: Vec<Cell>, shared_token: bool, reverse_end: bool) -> Scenario {
-    Scenario::Mem(mem::MemScenario { prefix: None, variant, conns, shared_token, reverse_end, rewrite: true })
+    Scenario::Mem(mem::MemScenario { prefix: None, variant, conns, shared_token, reverse_end, rewrite: true, outbound1: false })
+}
+
+/// outbound queue of one message (the reader parks on the full queue in the Outbound phase)
+fn mem_outbound1(variant: Variant, conns: Vec<Cell>, shared_token: bool, reverse_end: bool) -> Scenario {
+    Scenario::Mem(mem::MemScenario { prefix: None, variant, conns, shared_token, reverse_end, rewrite: false, outbound1: true })
 }
 
 /// the same, adopted through `adopt_upgraded_partially_read`
 fn mem_partial(prefix: mem::Prefix, variant: Variant, conns: Vec<Cell>, reverse_end: bool) -> Scenario {
-    Scenario::Mem(mem::MemScenario { prefix: Some(prefix), variant, conns, shared_token: false, reverse_end, rewrite: false })
+    Scenario::Mem(mem::MemScenario { prefix: Some(prefix), variant, conns, shared_token: false, reverse_end, rewrite: false, outbound1: false })
 }
 
 fn enumerate(tier: Tier, skipped: &mut BTreeMap<String, u64>) -> Vec<Scenario> {
@@ -1389,6 +1430,27 @@ fn enumerate(tier: Tier, skipped: &mut BTreeMap<String, u64>) -> Vec<Scenario> {
                     continue;
                 }
                 v.push(mem_rewriting(Variant::CancelHandshake, vec![*a, *b], (i + j) % 2 == 0, (i + j) % 3 == 0));
+            }
+        }
+    }
+    // (4e) an outbound queue of ONE message and a peer that does not read: the serving task is parked handing a
+    //     response to the full queue when the connection ends (every cause, every entry point; pairs)
+    {
+        // (not the off-reader panic cell: its survival probe needs a reader that reads)
+        let full: Vec<Cell> = cells(true, true).into_iter().filter(|c| c.phase == Phase::Outbound && c.cause != Cause::OffPanic).collect();
+        for &variant in &VARIANTS {
+            for c in &full {
+                if skip_reason(c.cause, c.phase, variant.has_token(), variant.has_handshake()).is_none() {
+                    v.push(mem_outbound1(variant, vec![*c], false, false));
+                }
+            }
+        }
+        for (i, a) in full.iter().enumerate() {
+            for (j, b) in full.iter().enumerate() {
+                if tier == Tier::Quick && (i * 3 + 1) % full.len() != j {
+                    continue;
+                }
+                v.push(mem_outbound1(Variant::CancelHandshake, vec![*a, *b], (i + j) % 2 == 0, (i + j) % 3 == 0));
             }
         }
     }
@@ -1626,6 +1688,7 @@ pub fn run(tier: Tier) -> ! {
             "disconnect_hook_pairs_checked": c.disconnect_pairs_checked,
             "failed_handshakes": c.handshake_failures,
             "offreader_panic_survived": c.offpanic_survived,
+            "embedder_exit_causes_whose_hooks_ran_while_the_peer_was_not_reading": c.hooks_ran_while_peer_blocked,
             "drain_returned_while_a_handler_was_parked": c.drain_returned_with_parked_handler,
             "drain_deadline_aborted_stragglers": c.drain_aborted_stragglers,
             "connections_with_responses_undelivered_at_drain_abort": c.undelivered_at_abort,
